@@ -13,6 +13,7 @@ import (
 	"verif/harness/malformed"
 	"verif/harness/ribhist"
 	"verif/harness/sesshist"
+	"verif/harness/streams"
 	"verif/report"
 )
 
@@ -35,6 +36,7 @@ var runners = map[string]runner{
 		conc.RunC05Sched(rep, tier, ribhist.Budget(tier, 100*time.Second, 20*time.Minute))
 	}},
 	"C11": {"model_checking", conc.RunC11},
+	"C09": {"model_checking", streams.RunC09},
 	"C06": {"model_checking", sesshist.RunC06},
 }
 
